@@ -111,6 +111,82 @@ def _norm(st: ast.stmt) -> str:
 LINES: Dict[Tuple[str, str], int] = {}
 
 
+# ------------------------------------------------------------------ path conditions as propositional formulas (GI decides implication, not spelling)
+_FLIPC = {ast.Gt: ast.Lt, ast.GtE: ast.LtE}
+
+
+def _atom_text(e: ast.AST) -> str:
+    return " ".join(ast.unparse(e).split())
+
+
+def formula_of(e: ast.AST, truth: bool = True):
+    """["and"|"or", f…] | ["not", f] | ["atom", text]; comparisons are brought to ==, is, in, < (negated / flipped as needed)."""
+    if not truth:
+        return ["not", formula_of(e, True)]
+    if isinstance(e, ast.UnaryOp) and isinstance(e.op, ast.Not):
+        return ["not", formula_of(e.operand, True)]
+    if isinstance(e, ast.BoolOp):
+        return ["and" if isinstance(e.op, ast.And) else "or"] + [formula_of(v, True) for v in e.values]
+    if isinstance(e, ast.Compare) and len(e.ops) == 1:
+        op, l, r = e.ops[0], e.left, e.comparators[0]
+        neg = False
+        if isinstance(op, ast.NotEq):
+            op, neg = ast.Eq(), True
+        elif isinstance(op, ast.IsNot):
+            op, neg = ast.Is(), True
+        elif isinstance(op, ast.NotIn):
+            op, neg = ast.In(), True
+        elif isinstance(op, ast.Gt):
+            op, l, r = ast.Lt(), r, l
+        elif isinstance(op, ast.GtE):          # a >= b  ==  not (a < b)
+            op, neg = ast.Lt(), True
+        elif isinstance(op, ast.LtE):          # a <= b  ==  not (b < a)
+            op, l, r, neg = ast.Lt(), r, l, True
+        if isinstance(op, (ast.Eq, ast.Is)) and _atom_text(l) > _atom_text(r):
+            l, r = r, l
+        a = ["atom", _atom_text(ast.Compare(left=l, ops=[op], comparators=[r]))]
+        return ["not", a] if neg else a
+    if isinstance(e, ast.Constant):
+        return ["and"] if e.value else ["or"]  # `while 1` / `while True`: a constant test is a constant
+    return ["atom", _atom_text(e)]
+
+
+def _f_atoms(f, out):
+    if f[0] == "atom":
+        out.add(f[1])
+    else:
+        for g in f[1:]:
+            _f_atoms(g, out)
+    return out
+
+
+def _f_eval(f, env) -> bool:
+    k = f[0]
+    if k == "atom":
+        return env[f[1]]
+    if k == "not":
+        return not _f_eval(f[1], env)
+    if k == "and":
+        return all(_f_eval(g, env) for g in f[1:])
+    return any(_f_eval(g, env) for g in f[1:])
+
+
+def implies(f, g, limit: int = 14) -> Optional[bool]:
+    """does f imply g for every assignment of their atoms (atoms are independent propositions)? None when there are too many atoms."""
+    atoms = sorted(_f_atoms(f, set()) | _f_atoms(g, set()))
+    if len(atoms) > limit:
+        return None
+    import itertools
+    for vals in itertools.product((False, True), repeat=len(atoms)):
+        env = dict(zip(atoms, vals))
+        if _f_eval(f, env) and not _f_eval(g, env):
+            return False
+    return True
+
+
+CONDS: Dict[str, Dict[str, list]] = {}
+
+
 def inventory(tree: Tree, relpaths: Optional[Set[str]] = None) -> Dict[str, Dict[str, List[List]]]:
     """{func key: {statement text#k: [atom ids]}} for the effect statements of every function of the selected files."""
     cg = CallGraph.of(tree)
@@ -142,6 +218,14 @@ def inventory(tree: Tree, relpaths: Optional[Set[str]] = None) -> Dict[str, Dict
                     atoms.append([list(_mentions(bn.ast.pattern)), "case", True])
             atoms.sort(key=repr)
             entry[f"{text}#{k}"] = atoms
+            conj = ["and"]
+            for b, lab in cfg.conditions_at(n.id):
+                bn = cfg.nodes[b]
+                if bn.kind in ("if", "while"):
+                    conj.append(formula_of(bn.ast.test, lab == "T"))
+                elif bn.kind == "case" and lab == "T":
+                    conj.append(["atom", "case " + _atom_text(bn.ast.pattern)])
+            CONDS.setdefault(f"{f.module.relpath}::{f.qualname}", {})[f"{text}#{k}"] = conj
             LINES[(f"{f.module.relpath}::{f.qualname}", f"{text}#{k}")] = getattr(n.ast, "lineno", 0)
         if entry:
             out[f"{f.module.relpath}::{f.qualname}"] = entry
@@ -151,7 +235,9 @@ def inventory(tree: Tree, relpaths: Optional[Set[str]] = None) -> Dict[str, Dict
 def build_reference(root: str) -> Dict:
     os.environ["VT_REPO"] = root
     t = Tree()
+    CONDS.clear()
     out = inventory(t)
+    out["::conds"] = {k: dict(v) for k, v in CONDS.items()}
     out["::writes"] = write_inventory(t)
     out["::defs"] = defs_inventory(t)
     out["::logs"] = log_inventory(t)
@@ -209,6 +295,31 @@ def rule_GI(tree: Tree, files: Optional[List[str]] = None, scope: Optional[List[
             want = {json.dumps(a, sort_keys=True) for a in rstm[skey]}
             added = sorted(have - want)
             dropped = sorted(want - have)
+            fr = (ref.get("::conds") or {}).get(fkey, {}).get(skey)
+            fc = CONDS.get(fkey, {}).get(skey)
+            if (added or dropped) and fr is not None and fc is not None:
+                # decide by implication between the two path conditions: a re-spelled guard (De Morgan, a conjunct factored into an outer `if`,
+                # guard clauses instead of nesting) is the same condition; only a strictly stronger / strictly weaker one is reported
+                r2c, c2r = implies(fr, fc), implies(fc, fr)
+                if r2c is not None and c2r is not None and not (r2c and c2r):
+                    # the same statement may stand at several places (one per direction / address family): merging or splitting such copies keeps
+                    # the union of their conditions — compare that before calling one copy's condition changed
+                    text0 = skey.rsplit("#", 1)[0]
+                    ur = ["or"] + [v for k2, v in (ref.get("::conds") or {}).get(fkey, {}).items() if k2.rsplit("#", 1)[0] == text0]
+                    uc = ["or"] + [v for k2, v in CONDS.get(fkey, {}).items() if k2.rsplit("#", 1)[0] == text0 and k2 in stmts]
+                    if len(ur) != len(uc) and implies(ur, uc) and implies(uc, ur):
+                        r2c = c2r = True
+                if r2c is not None and c2r is not None:
+                    if r2c and c2r:
+                        added, dropped = [], []
+                    elif c2r and not r2c:
+                        dropped = []
+                        added = added or ["[[], \"stronger\", true]"]
+                    elif r2c and not c2r:
+                        added = []
+                        dropped = dropped or ["[[], \"weaker\", true]"]
+                    else:
+                        added, dropped = added or ["x"], dropped or ["x"]  # re-written test: left to the specific rules
             if added and not dropped:
                 groups.setdefault(("new-condition", "; ".join(_fmt(json.loads(a)) for a in added)), []).append(skey)
             elif dropped and not added:
